@@ -33,11 +33,11 @@ CHECK = {
     "quick_deadline": 110,
     "thorough_deadline": 1200,
     "parts": [
-        {"name": "amr", "bin": "c16_amr", "quick_share": 0.36, "thorough_share": 0.42},
-        {"name": "cartesian", "bin": "c16_cartesian", "quick_share": 0.24, "thorough_share": 0.28},
-        {"name": "amrdens", "bin": "c16_amrdens", "quick_share": 0.26, "thorough_share": 0.22},
-        {"name": "voronoi", "bin": "c16_voronoi", "quick_share": 0.08, "thorough_share": 0.06},
-        {"name": "search", "bin": "c16_search", "quick_share": 0.06, "thorough_share": 0.02},
+        {"name": "amr", "bin": "c16_amr", "quick_share": 0.36, "thorough_share": 0.40},
+        {"name": "cartesian", "bin": "c16_cartesian", "quick_share": 0.28, "thorough_share": 0.30},
+        {"name": "amrdens", "bin": "c16_amrdens", "quick_share": 0.24, "thorough_share": 0.22},
+        {"name": "voronoi", "bin": "c16_voronoi", "quick_share": 0.07, "thorough_share": 0.06},
+        {"name": "search", "bin": "c16_search", "quick_share": 0.05, "thorough_share": 0.02},
     ],
     "assumptions": [],
 }
